@@ -170,6 +170,30 @@ Section PencilModel.
   Definition project (D : nat) (P : mat F) (m : vec F) (X : mat F) : mat F :=
     fun s j => sumn D (fun f => P f j * (X f s - m f)).
 
+  (* ------------------------- the embed() bodies -------------------------
+     methods/neighborhood_preserving_embedding.hpp, linear_local_tangent_space_alignment.hpp,
+     locality_preserving_projections.hpp, all three alike:
+        eig_matrices      = construct_*_eigenproblem(weight matrix, begin, end, features, current_dimension);
+        projection_result = generalized_eigendecomposition(eigen_method, strategy, SmallestEigenvalues,
+                                                           eig_matrices.first, eig_matrices.second, target_dimension);
+        mean_vector       = compute_mean(begin, end, features, current_dimension);
+        return (project(projection_result.first, mean_vector, ...), MatrixProjectionImplementation(first, mean))
+     The eigensolver is an ORACLE: a function from what it reads of the pencil to (V, lam).            *)
+  Record embed_result : Type := { e_proj : mat F; e_mean : vec F; e_emb : mat F; e_vals : vec F }.
+
+  Definition embed_body (oracle : pencil -> mat F * vec F) (p : pencil) (D d N : nat) (X : mat F)
+    : result embed_result :=
+    let '(V, lam) := oracle (seen p) in
+    match select_cols D d V with
+    | Ok P => let m := compute_mean X N in
+              Ok {| e_proj := P; e_mean := m; e_emb := project D P m X; e_vals := lam |}
+    | OOB a b c => OOB a b c
+    end.
+
+  Definition npe_embed oracle D d N X W := embed_body oracle (npe_repaired X N W) D d N X.
+  Definition lltsa_embed oracle D d N X W := embed_body oracle (lltsa_centred X N W) D d N X.
+  Definition lpp_embed oracle D d N X L dv := embed_body oracle (lpp_repaired X N L dv) D d N X.
+
   (* ------------------------- list level (execution / extraction) ------------------------- *)
   (* first stored entry whose row or column index is not a sample index *)
   Fixpoint bad_index (N : nat) (W : sparse) : option nat :=
